@@ -1,8 +1,10 @@
 (** Proofs about the two-pool machine of the ordered variant (PMF/Ord.v): the measure
-    decreases; with a free worker in the global pool no reachable state is a deadlock and
-    final states have drained a permutation of the input (so the reorder buffer yields the
-    in-order fold); when the caller is the only worker of the global pool no final state is
-    reachable and every run deadlocks. *)
+    decreases; in the concurrent branch, with a free worker in the global pool no reachable
+    state is a deadlock and final states have drained a permutation of the input (so the
+    reorder buffer yields the in-order fold); the sequential branch terminates with the
+    items in order; the code as it is now always has one or the other.  Under the rule
+    before the repair ([o_fixed k = false]), when the caller is the only worker of the
+    global pool no final state is reachable and every run deadlocks. *)
 From WG Require Import Base.Prelude PMF.Sched PMF.Ord PMF.Statements PMF.ValueFacts PMF.SchedFacts.
 From Coq Require Import ZifyBool ZifyN ZifyNat.
 
@@ -15,11 +17,23 @@ Ltac ostep_inv H :=
 
 Ltac osimpl := cbn [o_closed o_rest o_inq o_cons o_outq o_arr o_returned].
 
+Lemma ostep_par k s l : o_takes_seq k = false -> ostep k s l = opar_step k s l.
+Proof. intros H. unfold ostep. rewrite H. reflexivity. Qed.
+
+Lemma ostep_seq k s l : o_takes_seq k = true -> ostep k s l = oseq_step s l.
+Proof. intros H. unfold ostep. rewrite H. reflexivity. Qed.
+
+Lemma prefix_not_seq k : o_fixed k = false -> o_takes_seq k = false.
+Proof. intros H. unfold o_takes_seq. rewrite H. reflexivity. Qed.
+
 (** * The measure decreases *)
 Theorem ord_measure_decreases : S_ord_measure_decreases.
 Proof.
   intros k s s' l H. destruct s as [cl rest inq cons outq arr ret].
-  unfold omeasure. destruct l; cbn [ostep o_closed o_rest o_inq o_cons o_outq o_arr o_returned] in H;
+  unfold ostep in H. unfold omeasure.
+  destruct (o_takes_seq k);
+  destruct l; cbn [opar_step oseq_step o_closed o_rest o_inq o_cons o_outq o_arr o_returned] in H;
+    try discriminate H;
     ostep_inv H; osimpl; rewrite ?app_length; cbn [length];
     try match goal with
     | E : nth_error cons ?c = Some ?y |- context [upd cons ?c ?x] =>
@@ -56,9 +70,9 @@ Proof. induction n as [|n IH]; cbn [repeat existsb o_is_done orb]; [reflexivity|
 Lemma holds_repeat n : holds (repeat OQueued n) = [].
 Proof. unfold holds. induction n as [|n IH]; cbn [repeat flat_map hold_of app]; [reflexivity|exact IH]. Qed.
 
-Lemma oinv_init k items : OInv k items (oinit k items).
+Lemma oinv_init k items : o_takes_seq k = false -> OInv k items (oinit k items).
 Proof.
-  unfold oinit. constructor; osimpl.
+  intros Hpar. unfold oinit. rewrite Hpar. constructor; osimpl.
   - apply repeat_length.
   - rewrite o_existsb_done_repeat. intros Hx. discriminate Hx.
   - intros Hx. discriminate Hx.
@@ -76,15 +90,16 @@ Ltac mk_oinv :=
   constructor; osimpl; try assumption;
   try (let Hx := fresh in intros Hx; discriminate Hx).
 
-Lemma oinv_step k items s l s' : OInv k items s -> ostep k s l = Some s' -> OInv k items s'.
+Lemma oinv_step k items s l s' :
+  o_takes_seq k = false -> OInv k items s -> ostep k s l = Some s' -> OInv k items s'.
 Proof.
-  intros I H. destruct s as [cl rest inq cons outq arr ret].
+  intros Hpar I H. rewrite (ostep_par _ _ _ Hpar) in H. destruct s as [cl rest inq cons outq arr ret].
   pose proof (oi_len _ _ _ I) as Ilen. pose proof (oi_done _ _ _ I) as Idone.
   pose proof (oi_rest _ _ _ I) as Irest. pose proof (oi_ret _ _ _ I) as Iret.
   pose proof (oi_cnt _ _ _ I) as Icnt. unfold opool in Icnt.
   cbn [o_closed o_rest o_inq o_cons o_outq o_arr o_returned] in *.
-  destruct l; cbn [ostep o_closed o_rest o_inq o_cons o_outq o_arr o_returned] in H;
-    ostep_inv H.
+  destruct l; cbn [opar_step o_closed o_rest o_inq o_cons o_outq o_arr o_returned] in H;
+    try discriminate H; ostep_inv H.
   - (* OFeedSend *)
     mk_oinv.
     + intros Hd. destruct (Idone Hd) as [Hx _]. discriminate Hx.
@@ -140,9 +155,70 @@ Proof.
     intros _. split; [assumption|reflexivity].
 Qed.
 
-Lemma oinv_reachable k items s : oreachable k items s -> OInv k items s.
+Lemma oinv_reachable k items s : o_takes_seq k = false -> oreachable k items s -> OInv k items s.
 Proof.
-  induction 1 as [|s l s' _ IH Hs]; [apply oinv_init|]. exact (oinv_step _ _ _ _ _ IH Hs).
+  intros Hpar. induction 1 as [|s l s' _ IH Hs]; [apply oinv_init; exact Hpar|].
+  exact (oinv_step _ _ _ _ _ Hpar IH Hs).
+Qed.
+
+(** * The sequential branch *)
+Record SInv (items : list N) (s : ost) : Prop := {
+  si_inq : o_inq s = [];
+  si_cons : o_cons s = [];
+  si_outq : o_outq s = [];
+  si_items : rev (o_arr s) ++ o_rest s = items;
+  si_flags : o_closed s = o_returned s;
+  si_ret : o_returned s = true -> o_rest s = [] }.
+
+Lemma sinv_init k items : o_takes_seq k = true -> SInv items (oinit k items).
+Proof.
+  intros Hseq. unfold oinit. rewrite Hseq. constructor; osimpl; try reflexivity.
+  intros Hx. discriminate Hx.
+Qed.
+
+Lemma sinv_step k items s l s' :
+  o_takes_seq k = true -> SInv items s -> ostep k s l = Some s' -> SInv items s'.
+Proof.
+  intros Hseq I H. rewrite (ostep_seq _ _ _ Hseq) in H.
+  destruct I as [Iq Ic Io Ii If Ir]. destruct s as [cl rest inq cons outq arr ret].
+  cbn [o_closed o_rest o_inq o_cons o_outq o_arr o_returned] in *.
+  destruct l; cbn [oseq_step o_closed o_rest o_inq o_cons o_outq o_arr o_returned] in H;
+    try discriminate H; ostep_inv H; constructor; osimpl; try assumption; try reflexivity.
+  - cbn [rev]. rewrite <- app_assoc. reflexivity.
+  - intros Hx. discriminate Hx.
+Qed.
+
+Lemma sinv_reachable k items s : o_takes_seq k = true -> oreachable k items s -> SInv items s.
+Proof.
+  intros Hseq. induction 1 as [|s l s' _ IH Hs]; [apply sinv_init; exact Hseq|].
+  exact (sinv_step _ _ _ _ _ Hseq IH Hs).
+Qed.
+
+Lemma lrev_rev {X} (l : list X) : lrev l = rev l.
+Proof. unfold lrev. symmetry. apply rev_alt. Qed.
+
+Lemma seq_progress k items s :
+  o_takes_seq k = true -> oreachable k items s -> ofinal s = false ->
+  exists l s', ostep k s l = Some s'.
+Proof.
+  intros Hseq Hr Hfin. destruct (sinv_reachable _ _ _ Hseq Hr) as [Iq Ic Io Ii If Ir].
+  destruct (o_returned s) eqn:Eret.
+  - exfalso. unfold ofinal in Hfin. rewrite If, Eret, Ic in Hfin. discriminate Hfin.
+  - destruct (o_rest s) as [|x r] eqn:Er.
+    + exists OSeqReturn. rewrite (ostep_seq _ _ _ Hseq). cbn [oseq_step]. rewrite Eret, Er.
+      eexists; reflexivity.
+    + exists OSeqFold. rewrite (ostep_seq _ _ _ Hseq). cbn [oseq_step]. rewrite Eret, Er.
+      eexists; reflexivity.
+Qed.
+
+(** a final state of the sequential branch has folded the items in order *)
+Lemma seq_final_inorder k items s :
+  o_takes_seq k = true -> oreachable k items s -> ofinal s = true -> lrev (o_arr s) = items.
+Proof.
+  intros Hseq Hr Hfin. destruct (sinv_reachable _ _ _ Hseq Hr) as [Iq Ic Io Ii If Ir].
+  unfold ofinal in Hfin. apply andb_true_iff in Hfin. destruct Hfin as [Hfin _].
+  apply andb_true_iff in Hfin. destruct Hfin as [Hret _].
+  rewrite (Ir Hret), app_nil_r in Ii. rewrite lrev_rev. exact Ii.
 Qed.
 
 (** * Progress with a free worker *)
@@ -158,19 +234,24 @@ Proof.
   - rewrite (nth_existsb is_holding _ _ _ Hn eq_refl) in Hh. discriminate.
 Qed.
 
-Theorem ord_progress : S_ord_progress.
+Lemma par_progress k items s :
+  o_takes_seq k = false -> o_has_free_worker k = true -> (1 <= o_tasks k)%nat ->
+  oreachable k items s -> ofinal s = false ->
+  exists l s', ostep k s l = Some s'.
 Proof.
-  intros k items s Hfree HT Hr Hfin. pose proof (oinv_reachable _ _ _ Hr) as I.
+  intros Hpar Hfree HT Hr Hfin. pose proof (oinv_reachable _ _ _ Hpar Hr) as I.
+  assert (Hgoal : exists l s', opar_step k s l = Some s');
+    [|destruct Hgoal as (l & s' & Hs); exists l, s'; rewrite (ostep_par _ _ _ Hpar); exact Hs].
   (* the caller can take a result *)
   destruct (o_returned s) eqn:Eret; [|destruct (o_outq s) as [|x o] eqn:Eo].
-  3: { exists ODrainRecv. cbn [ostep]. rewrite Eret, Eo. eexists; reflexivity. }
+  3: { exists ODrainRecv. cbn [opar_step]. rewrite Eret, Eo. eexists; reflexivity. }
   all: assert (Hout : o_outq s = []) by
          (first [exact Eo | exact (proj2 (oi_ret _ _ _ I Eret))]).
   all: destruct (existsb is_holding (o_cons s)) eqn:Ehold.
   1,3: (* a consumer holding a result can send it: the result channel is empty *)
     apply existsb_nth in Ehold; destruct Ehold as (c & y & Hn & Hy);
     destruct y as [|w|w x|]; try discriminate;
-    exists (OSendOut c); cbn [ostep]; rewrite Hn, Hout; cbn [length];
+    exists (OSendOut c); cbn [opar_step]; rewrite Hn, Hout; cbn [length];
     destruct (Nat.ltb_spec 0 (2 * o_tasks k)) as [_|Hge]; [eexists; reflexivity|lia].
   all: destruct (existsb is_idle (o_cons s)) eqn:Eidle.
   1,3: (* an idle consumer receives, or ends, or waits for the feeder, which can move *)
@@ -178,12 +259,12 @@ Proof.
     destruct y as [|w|w x|]; try discriminate;
     (destruct (o_inq s) as [|x q] eqn:Eq;
      [ destruct (o_closed s) eqn:Ecl;
-       [ exists (OFinish c); cbn [ostep]; rewrite Hn, Eq, Ecl; eexists; reflexivity
+       [ exists (OFinish c); cbn [opar_step]; rewrite Hn, Eq, Ecl; eexists; reflexivity
        | destruct (o_rest s) as [|x r] eqn:Er;
-         [ exists OClose; cbn [ostep]; rewrite Ecl, Er; eexists; reflexivity
-         | exists OFeedSend; cbn [ostep]; rewrite Ecl, Er, Eq; cbn [length];
+         [ exists OClose; cbn [opar_step]; rewrite Ecl, Er; eexists; reflexivity
+         | exists OFeedSend; cbn [opar_step]; rewrite Ecl, Er, Eq; cbn [length];
            destruct (Nat.ltb_spec 0 (2 * o_tasks k)) as [_|Hge]; [eexists; reflexivity|lia] ] ]
-     | exists (ORecv c); cbn [ostep]; rewrite Hn, Eq; eexists; reflexivity ]).
+     | exists (ORecv c); cbn [opar_step]; rewrite Hn, Eq; eexists; reflexivity ]).
   all: destruct (o_all_done (o_cons s)) eqn:Eall.
   - (* returned, all done: the state is final *)
     exfalso. unfold ofinal in Hfin. rewrite Eret, Eall in Hfin.
@@ -194,7 +275,7 @@ Proof.
       apply andb_true_iff in Eall. destruct Eall as [Ha _]. rewrite Ha. reflexivity. }
     rewrite Hcl in Hfin. discriminate.
   - exfalso. destruct (oi_ret _ _ _ I Eret) as [Ha _]. rewrite Ha in Eall. discriminate.
-  - exists ODrainEnd. cbn [ostep]. rewrite Eret, Eo, Eall. eexists; reflexivity.
+  - exists ODrainEnd. cbn [opar_step]. rewrite Eret, Eo, Eall. eexists; reflexivity.
   - (* a queued consumer and a free worker *)
     apply forallb_false_nth in Eall. destruct Eall as (c & y & Hn & Hy).
     assert (y = OQueued).
@@ -203,24 +284,48 @@ Proof.
       - rewrite (nth_existsb is_holding _ _ _ Hn eq_refl) in Ehold. discriminate. }
     subst y. unfold o_has_free_worker in Hfree.
     destruct (o_caller_in_g k) eqn:Eg.
-    + exists (OStart 1 c). cbn [ostep]. rewrite Eg, (obusy_none _ 1 Ehold Eidle), Hn.
+    + exists (OStart 1 c). cbn [opar_step]. rewrite Eg, (obusy_none _ 1 Ehold Eidle), Hn.
       apply Nat.leb_le in Hfree.
       destruct (Nat.ltb_spec 1 (o_gworkers k)) as [_|Hge]; [|lia]. eexists; reflexivity.
-    + exists (OStart 0 c). cbn [ostep]. rewrite Eg, (obusy_none _ 0 Ehold Eidle), Hn.
+    + exists (OStart 0 c). cbn [opar_step]. rewrite Eg, (obusy_none _ 0 Ehold Eidle), Hn.
       apply Nat.leb_le in Hfree.
       destruct (Nat.ltb_spec 0 (o_gworkers k)) as [_|Hge]; [|lia]. eexists; reflexivity.
 Qed.
 
+(** the code as it is now either takes the sequential branch or has a free global worker *)
+Lemma fixed_seq_or_free k :
+  o_fixed k = true -> (1 <= o_gworkers k)%nat ->
+  o_takes_seq k = false -> o_has_free_worker k = true.
+Proof.
+  intros Hfix HG Hpar. unfold o_takes_seq in Hpar. rewrite Hfix in Hpar. cbn [andb] in Hpar.
+  unfold o_has_free_worker, o_caller_in_g. unfold seq_branch, caller_pool in Hpar.
+  destruct (o_caller k); apply Nat.leb_le; try exact HG.
+  apply Nat.eqb_neq in Hpar. lia.
+Qed.
+
+Theorem ord_progress : S_ord_progress.
+Proof.
+  intros k items s Hfix HG HT Hr Hfin. destruct (o_takes_seq k) eqn:Eseq.
+  - exact (seq_progress _ _ _ Eseq Hr Hfin).
+  - exact (par_progress _ _ _ Eseq (fixed_seq_or_free _ Hfix HG Eseq) HT Hr Hfin).
+Qed.
+
+Theorem ord_progress_prefix : S_ord_progress_prefix.
+Proof.
+  intros k items s Hfix Hfree HT Hr Hfin.
+  exact (par_progress _ _ _ (prefix_not_seq _ Hfix) Hfree HT Hr Hfin).
+Qed.
+
 (** * [ostuck] is exact *)
-Lemma olabel_in_all k items s l s' :
-  OInv k items s -> ostep k s l = Some s' -> In l (o_all_labels k).
+Lemma olabel_in_all_par k items s l s' :
+  OInv k items s -> opar_step k s l = Some s' -> In l (o_all_labels k).
 Proof.
   intros I H. pose proof (oi_len _ _ _ I) as Ilen. unfold o_all_labels.
   assert (Hc : forall c x, nth_error (o_cons s) c = Some x -> In c (seq 0 (o_tasks k))).
   { intros c x Hn. apply in_seq. rewrite <- Ilen.
     assert (c < length (o_cons s))%nat by (apply nth_error_Some; rewrite Hn; discriminate). lia. }
   destruct l; try (cbn; tauto); apply in_or_app; right; apply in_flat_map;
-    cbn [ostep] in H.
+    cbn [opar_step] in H.
   - (* OStart *)
     destruct ((w <? o_gworkers k)%nat && negb (o_caller_in_g k && Nat.eqb w 0)
               && negb (obusy (o_cons s) w)) eqn:G; [|discriminate].
@@ -237,11 +342,21 @@ Proof.
     exists c. split; [exact (Hc _ _ Hn)|]. right. right. left. reflexivity.
 Qed.
 
+Lemma olabel_in_all k items s l s' :
+  oreachable k items s -> ostep k s l = Some s' -> In l (o_all_labels k).
+Proof.
+  intros Hr H. destruct (o_takes_seq k) eqn:Eseq.
+  - rewrite (ostep_seq _ _ _ Eseq) in H. unfold o_all_labels.
+    destruct l; cbn [oseq_step] in H; try discriminate H; cbn; tauto.
+  - rewrite (ostep_par _ _ _ Eseq) in H.
+    exact (olabel_in_all_par _ _ _ _ _ (oinv_reachable _ _ _ Eseq Hr) H).
+Qed.
+
 Theorem ord_stuck_spec : S_ord_stuck_spec.
 Proof.
-  intros k items s Hr. pose proof (oinv_reachable _ _ _ Hr) as I. unfold ostuck, oenabled. split.
+  intros k items s Hr. unfold ostuck, oenabled. split.
   - intros H l. destruct (ostep k s l) as [s'|] eqn:Hs; [|reflexivity]. exfalso.
-    pose proof (olabel_in_all _ _ _ _ _ I Hs) as Hin.
+    pose proof (olabel_in_all _ _ _ _ _ Hr Hs) as Hin.
     assert (Hf : In l (filter (fun l => is_some (ostep k s l)) (o_all_labels k))).
     { apply filter_In. split; [exact Hin|]. rewrite Hs. reflexivity. }
     destruct (filter (fun l => is_some (ostep k s l)) (o_all_labels k)); [contradiction|discriminate].
@@ -258,14 +373,18 @@ Proof.
 Qed.
 
 Lemma never_started k items s :
-  o_caller_in_g k = true -> o_gworkers k = 1%nat ->
+  o_fixed k = false -> o_caller_in_g k = true -> o_gworkers k = 1%nat ->
   oreachable k items s -> forallb is_queued (o_cons s) = true.
 Proof.
-  intros Hg HG. induction 1 as [|s l s' _ IH Hs].
-  - unfold oinit. osimpl. induction (o_tasks k) as [|n IHn]; cbn [repeat forallb is_queued andb];
+  intros Hfix Hg HG. pose proof (prefix_not_seq _ Hfix) as Hpar.
+  induction 1 as [|s l s' _ IH Hs].
+  - unfold oinit. rewrite Hpar. osimpl.
+    induction (o_tasks k) as [|n IHn]; cbn [repeat forallb is_queued andb];
       [reflexivity|exact IHn].
-  - destruct s as [cl rest inq cons outq arr ret]. osimpl. cbn [o_cons] in IH.
-    destruct l; cbn [ostep o_closed o_rest o_inq o_cons o_outq o_arr o_returned] in Hs;
+  - rewrite (ostep_par _ _ _ Hpar) in Hs.
+    destruct s as [cl rest inq cons outq arr ret]. osimpl. cbn [o_cons] in IH.
+    destruct l; cbn [opar_step o_closed o_rest o_inq o_cons o_outq o_arr o_returned] in Hs;
+      try discriminate Hs;
       ostep_inv Hs; osimpl; try assumption; exfalso.
     + (* OStart: the only worker is the caller *)
       rewrite Hg, HG in E. destruct w as [|w]; cbn in E; discriminate.
@@ -276,8 +395,10 @@ Qed.
 
 Theorem ord_deadlock_all : S_ord_deadlock_all.
 Proof.
-  intros k items s Hg HG HT Hr. pose proof (never_started _ _ _ Hg HG Hr) as Hq.
-  pose proof (oi_len _ _ _ (oinv_reachable _ _ _ Hr)) as Hl.
+  intros k items s Hfix Hc HG HT Hr.
+  assert (Hg : o_caller_in_g k = true) by (unfold o_caller_in_g; rewrite Hc; reflexivity).
+  pose proof (never_started _ _ _ Hfix Hg HG Hr) as Hq.
+  pose proof (oi_len _ _ _ (oinv_reachable _ _ _ (prefix_not_seq _ Hfix) Hr)) as Hl.
   unfold ofinal. destruct (o_cons s) as [|a cs]; [cbn [length] in Hl; lia|].
   cbn [forallb] in Hq. apply andb_true_iff in Hq. destruct Hq as [Ha _].
   destruct a; try discriminate. unfold o_all_done. cbn [forallb o_is_done andb].
@@ -288,7 +409,7 @@ Theorem ord_deadlock_refuted : S_ord_deadlock_refuted.
 Proof.
   (* one consumer, five items: the feeder fills the input channel (capacity 2) and blocks,
      the consumer is never started, the caller blocks on the empty result channel *)
-  set (k := mkOCfg 1 1 true).
+  set (k := mkOCfg 1 1 OGlobalWorker false).
   set (items := nseq 0 5).
   set (s := mkOSt false (nseq 2 3) (nseq 0 2) [OQueued] [] [] false).
   assert (Hr : oreachable k items s).
@@ -296,7 +417,8 @@ Proof.
       [|reflexivity].
     apply (oreach_step k items (oinit k items) OFeedSend); [|reflexivity].
     apply oreach_init. }
-  exists k, items, s. split; [reflexivity|]. split; [reflexivity|]. split; [cbn; lia|].
+  exists k, items, s. split; [reflexivity|]. split; [reflexivity|]. split; [reflexivity|].
+  split; [cbn; lia|].
   split; [exact Hr|]. split; [reflexivity|].
   apply (ord_stuck_spec k items s Hr). vm_compute. reflexivity.
 Qed.
@@ -344,20 +466,23 @@ Qed.
 Theorem ord_machine_value : S_ord_machine_value.
 Proof.
   intros R A f fold init k len s HT Hr Hf.
-  apply ord_value_perm. apply ofinal_perm with k; [exact HT|apply oinv_reachable; exact Hr|exact Hf].
+  apply ord_value_perm. destruct (o_takes_seq k) eqn:Eseq.
+  - rewrite (seq_final_inorder _ _ _ Eseq Hr Hf). apply Permutation_refl.
+  - apply ofinal_perm with k; [exact HT|apply oinv_reachable; [exact Eseq|exact Hr]|exact Hf].
 Qed.
 
 (** * The runner *)
-Lemma orun_ok k items : o_has_free_worker k = true -> (1 <= o_tasks k)%nat ->
+Lemma orun_ok k items :
+  (forall s, oreachable k items s -> ofinal s = false -> exists l s', ostep k s l = Some s') ->
   forall fuel s sched0 sched,
   oreachable k items s -> (omeasure s <= fuel)%nat ->
   exists s', oreachable k items s' /\ ofinal s' = true
     /\ orun k fuel sched0 sched s = OTerminated (lrev (o_arr s')).
 Proof.
-  intros HN HT. induction fuel as [|fuel IH]; intros s sched0 sched Hr Hm.
+  intros Hprog. induction fuel as [|fuel IH]; intros s sched0 sched Hr Hm.
   - destruct (ofinal s) eqn:Hf.
     + exists s. split; [exact Hr|]. split; [exact Hf|]. cbn [orun]. rewrite Hf. reflexivity.
-    + exfalso. destruct (ord_progress k items s HN HT Hr Hf) as (l & s' & Hs).
+    + exfalso. destruct (Hprog s Hr Hf) as (l & s' & Hs).
       pose proof (ord_measure_decreases _ _ _ _ Hs). lia.
   - destruct (ofinal s) eqn:Hf.
     + exists s. split; [exact Hr|]. split; [exact Hf|]. cbn [orun]. rewrite Hf. reflexivity.
@@ -370,7 +495,7 @@ Proof.
         - rewrite <- E0 in Hin. subst en0. apply filter_In in Hin. apply Hin. }
       assert (Hne : en <> []).
       { subst en. destruct en0 eqn:E0; [|discriminate].
-        intros Hnil. destruct (ord_progress k items s HN HT Hr Hf) as (l & s' & Hs).
+        intros Hnil. destruct (Hprog s Hr Hf) as (l & s' & Hs).
         assert (Hst : ostuck k s = true) by (unfold ostuck; rewrite Hnil; reflexivity).
         apply (ord_stuck_spec k items s Hr) with (l := l) in Hst. rewrite Hs in Hst. discriminate. }
       destruct en as [|l0 en'] eqn:Een; [contradiction|].
@@ -383,34 +508,73 @@ Proof.
       * pose proof (ord_measure_decreases _ _ _ _ Hs) as Hd. clear - Hd Hm. lia.
 Qed.
 
+Lemma pmf_tasks_pos w hint : (1 <= pmf_tasks w hint)%nat.
+Proof. unfold pmf_tasks. apply Nat.le_max_l. Qed.
+
 Theorem ord_run_total : S_ord_run_total.
 Proof.
-  intros R A f fold init cw gw hint in_g len sched HN.
-  unfold pmf_ord_run.
-  set (k := mkOCfg gw (pmf_tasks cw hint) in_g).
-  assert (HT : (1 <= o_tasks k)%nat) by (subst k; cbn [o_tasks]; unfold pmf_tasks; apply Nat.le_max_l).
+  intros R A f fold init gw caller hint len sched HG.
+  unfold pmf_ord_run, pmf_ord_run_gen.
+  set (k := mkOCfg gw (pmf_tasks (caller_threads gw caller) hint) caller true).
+  assert (HT : (1 <= o_tasks k)%nat) by (subst k; cbn [o_tasks]; apply pmf_tasks_pos).
+  assert (Hprog : forall s, oreachable k (nseq 0 len) s -> ofinal s = false ->
+                  exists l s', ostep k s l = Some s').
+  { intros s Hr Hf. exact (ord_progress k (nseq 0 len) s eq_refl HG HT Hr Hf). }
+  destruct (orun_ok k (nseq 0 len) Hprog _ _ sched sched (oreach_init _ _) (le_n _))
+    as (s' & Hr & Hf & Hrun).
+  exists (lrev (o_arr s')). split; [exact Hrun|].
+  exact (ord_machine_value R A f fold init k len s' HT Hr Hf).
+Qed.
+
+Theorem ord_run_seq : S_ord_run_seq.
+Proof.
+  intros gw caller hint len sched Hc.
+  unfold pmf_ord_run, pmf_ord_run_gen.
+  set (k := mkOCfg gw (pmf_tasks (caller_threads gw caller) hint) caller true).
+  assert (Hseq : o_takes_seq k = true).
+  { subst k. unfold o_takes_seq, seq_branch. cbn [o_fixed o_gworkers o_caller andb].
+    rewrite Hc. reflexivity. }
+  assert (Hprog : forall s, oreachable k (nseq 0 len) s -> ofinal s = false ->
+                  exists l s', ostep k s l = Some s').
+  { intros s Hr Hf. exact (seq_progress _ _ _ Hseq Hr Hf). }
+  destruct (orun_ok k (nseq 0 len) Hprog _ _ sched sched (oreach_init _ _) (le_n _))
+    as (s' & Hr & Hf & Hrun).
+  rewrite Hrun. rewrite (seq_final_inorder _ _ _ Hseq Hr Hf). reflexivity.
+Qed.
+
+Theorem ord_run_total_prefix : S_ord_run_total_prefix.
+Proof.
+  intros R A f fold init gw caller hint len sched HN.
+  unfold pmf_ord_run_prefix, pmf_ord_run_gen.
+  set (k := mkOCfg gw (pmf_tasks (caller_threads gw caller) hint) caller false).
+  assert (HT : (1 <= o_tasks k)%nat) by (subst k; cbn [o_tasks]; apply pmf_tasks_pos).
   assert (Hfree : o_has_free_worker k = true).
-  { subst k. unfold o_has_free_worker. cbn [o_caller_in_g o_gworkers].
-    destruct in_g; apply Nat.leb_le; exact HN. }
-  destruct (orun_ok k (nseq 0 len) Hfree HT _ _ sched sched (oreach_init _ _) (le_n _))
+  { subst k. unfold o_has_free_worker, o_caller_in_g. cbn [o_caller o_gworkers].
+    destruct caller; apply Nat.leb_le; exact HN. }
+  assert (Hprog : forall s, oreachable k (nseq 0 len) s -> ofinal s = false ->
+                  exists l s', ostep k s l = Some s').
+  { intros s Hr Hf. exact (ord_progress_prefix k (nseq 0 len) s eq_refl Hfree HT Hr Hf). }
+  destruct (orun_ok k (nseq 0 len) Hprog _ _ sched sched (oreach_init _ _) (le_n _))
     as (s' & Hr & Hf & Hrun).
   exists (lrev (o_arr s')). split; [exact Hrun|].
   exact (ord_machine_value R A f fold init k len s' HT Hr Hf).
 Qed.
 
 Lemma orun_deadlock k items :
-  o_caller_in_g k = true -> o_gworkers k = 1%nat -> (1 <= o_tasks k)%nat ->
+  o_fixed k = false -> o_caller k = OGlobalWorker -> o_gworkers k = 1%nat -> (1 <= o_tasks k)%nat ->
   forall fuel s sched0 sched,
   oreachable k items s -> (omeasure s <= fuel)%nat ->
   orun k fuel sched0 sched s = ODeadlock.
 Proof.
-  intros Hg HG HT. induction fuel as [|fuel IH]; intros s sched0 sched Hr Hm.
-  - exfalso. pose proof (never_started _ _ _ Hg HG Hr) as Hq.
-    pose proof (oi_len _ _ _ (oinv_reachable _ _ _ Hr)) as Hl.
+  intros Hfix Hc HG HT.
+  assert (Hg : o_caller_in_g k = true) by (unfold o_caller_in_g; rewrite Hc; reflexivity).
+  induction fuel as [|fuel IH]; intros s sched0 sched Hr Hm.
+  - exfalso. pose proof (never_started _ _ _ Hfix Hg HG Hr) as Hq.
+    pose proof (oi_len _ _ _ (oinv_reachable _ _ _ (prefix_not_seq _ Hfix) Hr)) as Hl.
     unfold omeasure in Hm. destruct (o_cons s) as [|a cs]; [cbn [length] in Hl; lia|].
     cbn [forallb] in Hq. apply andb_true_iff in Hq. destruct Hq as [Ha _].
     destruct a; try discriminate. simpl in Hm. lia.
-  - cbn [orun]. rewrite (ord_deadlock_all k items s Hg HG HT Hr).
+  - cbn [orun]. rewrite (ord_deadlock_all k items s Hfix Hc HG HT Hr).
     set (en0 := filter (fun l => is_some (ostep k s l)) (ocandidates k s)).
     set (en := match en0 with [] => oenabled k s | _ => en0 end).
     destruct en as [|l0 en'] eqn:Een; [reflexivity|].
@@ -424,10 +588,10 @@ Qed.
 
 Theorem ord_run_deadlock : S_ord_run_deadlock.
 Proof.
-  intros cw hint len sched. unfold pmf_ord_run.
-  set (k := mkOCfg 1 (pmf_tasks cw hint) true).
-  assert (HT : (1 <= o_tasks k)%nat) by (subst k; cbn [o_tasks]; unfold pmf_tasks; apply Nat.le_max_l).
-  apply (orun_deadlock k (nseq 0 len) eq_refl eq_refl HT).
+  intros hint len sched. unfold pmf_ord_run_prefix, pmf_ord_run_gen.
+  set (k := mkOCfg 1 (pmf_tasks (caller_threads 1 OGlobalWorker) hint) OGlobalWorker false).
+  assert (HT : (1 <= o_tasks k)%nat) by (subst k; cbn [o_tasks]; apply pmf_tasks_pos).
+  apply (orun_deadlock k (nseq 0 len) eq_refl eq_refl eq_refl HT).
   - apply oreach_init.
   - apply le_n.
 Qed.
